@@ -1,56 +1,120 @@
 import Mltwist.Lemmas.Expreval
+import Mltwist.Lemmas.TransformBasic
+import Mltwist.Lemmas.TransformFold
 import Mltwist.Model.Transform
 import Mltwist.Spec.Checks
 /-
 Helper lemmas for C09, C12, C13: semantics of SetWidth, PurgeWidthGadgets, ConstFold,
-Possibilities.  (Proofs to be supplied.)
+Possibilities.  The supporting lemmas live in `TransformBasic` (arithmetic, `SetWidth`,
+`prune`/`stripSame`/`purge`) and `TransformFold` (`constFoldRaw`, normal forms).
 -/
 namespace Mltwist.Lemmas.Transform
 open Mltwist
 
 /-- values stay below `2^(8*width)` -/
-theorem eval_lt (ρ : Env) (e : Expr) : e.eval ρ < 2 ^ (8 * e.width) := by
-  sorry
+theorem eval_lt (ρ : Env) (e : Expr) : e.eval ρ < 2 ^ (8 * e.width) :=
+  eval_lt' ρ e
 
-theorem setWidth_width (e : Expr) (w : Nat) : (setWidth e w).width = w := by
-  sorry
+theorem setWidth_width (e : Expr) (w : Nat) : (setWidth e w).width = w :=
+  setWidth_width' e w
 
 theorem setWidth_eval (ρ : Env) (e : Expr) (w : Nat) :
-    (setWidth e w).eval ρ = trunc w (e.eval ρ) := by
-  sorry
+    (setWidth e w).eval ρ = trunc w (e.eval ρ) :=
+  setWidth_eval' ρ e w
 
 /-- the `panic("unreachable")` of `dropUselessWidthGadget` is unreachable -/
-theorem dropDecision_total (w x a : Nat) : dropDecision w x a ≠ none := by
-  sorry
+theorem dropDecision_total (w x a : Nat) : dropDecision w x a ≠ none :=
+  dropDecision_total' w x a
 
 theorem purge_width (e : Expr) : (purgeWidthGadgets e).width = e.width := by
-  sorry
+  unfold purgeWidthGadgets
+  rw [stripSame_width, purge_width']
 
 theorem purge_eval (ρ : Env) (e : Expr) : (purgeWidthGadgets e).eval ρ = e.eval ρ := by
-  sorry
+  unfold purgeWidthGadgets
+  rw [stripSame_eval, purge_eval']
 
 theorem constFold_width (e : Expr) : (constFold e).width = e.width := by
-  sorry
+  unfold constFold
+  rw [purge_width, cfr_width]
 
 theorem constFold_eval (ρ : Env) (e : Expr) (h : e.wf = true) :
     (constFold e).eval ρ = e.eval ρ := by
-  sorry
+  unfold constFold
+  rw [purge_eval, cfr_eval ρ e h]
 
 theorem constFold_closed (e : Expr) (h : e.closed = true) : (constFold e).isConst = true := by
-  sorry
+  obtain ⟨bs, hbs⟩ := isConst_iff.1 (cfr_closed e h)
+  unfold constFold
+  rw [hbs]
+  simp [purgeWidthGadgets, purge, stripSame, Expr.isConst]
 
-theorem constFold_noConstOp (e : Expr) : (constFold e).noConstOp = true := by
-  sorry
+theorem constFold_noConstOp (e : Expr) : (constFold e).noConstOp = true :=
+  purgeWidthGadgets_noConstOp _ (cfr_noConstOp e)
 
 theorem constFold_idem (e : Expr) : constFold (constFold e) = constFold e := by
-  sorry
+  have h := constFold_noConstOp e
+  show purgeWidthGadgets (constFoldRaw (constFold e)) = constFold e
+  rw [cfr_of_noConstOp _ h]
+  exact purgeWidthGadgets_idem (constFoldRaw e)
 
 theorem possibilities_cover (ρ : Env) (e : Expr) :
     ∃ p ∈ possibilities e, p.eval ρ = e.eval ρ := by
-  sorry
+  induction e with
+  | const bs => exact ⟨_, by simp [possibilities], rfl⟩
+  | regLoad k w => exact ⟨_, by simp [possibilities], rfl⟩
+  | memLoad k a w iha =>
+    obtain ⟨p, hp, he⟩ := iha
+    refine ⟨.memLoad k p w, ?_, ?_⟩
+    · simp only [possibilities, List.mem_map]
+      exact ⟨p, hp, rfl⟩
+    · simp only [Expr.eval, he]
+  | binary op a b w iha ihb =>
+    obtain ⟨p, hp, hpe⟩ := iha
+    obtain ⟨q, hq, hqe⟩ := ihb
+    refine ⟨.binary op p q w, ?_, ?_⟩
+    · simp only [possibilities, List.mem_flatMap, List.mem_map]
+      exact ⟨p, hp, q, hq, rfl⟩
+    · simp only [Expr.eval, hpe, hqe]
+  | less a b t f w _ _ iht ihf =>
+    obtain ⟨p, hp, hpe⟩ := iht
+    obtain ⟨q, hq, hqe⟩ := ihf
+    by_cases hc : trunc w (a.eval ρ) < trunc w (b.eval ρ)
+    · refine ⟨setWidth p w, ?_, ?_⟩
+      · simp only [possibilities, List.mem_append, List.mem_map]
+        exact Or.inl ⟨p, hp, rfl⟩
+      · simp only [Expr.eval, if_pos hc, setWidth_eval, hpe]
+    · refine ⟨setWidth q w, ?_, ?_⟩
+      · simp only [possibilities, List.mem_append, List.mem_map]
+        exact Or.inr ⟨q, hq, rfl⟩
+      · simp only [Expr.eval, if_neg hc, setWidth_eval, hqe]
 
 theorem possibilities_shape (e : Expr) :
     ∀ p ∈ possibilities e, p.width = e.width ∧ p.noLess = true := by
-  sorry
+  induction e with
+  | const bs =>
+    intro p hp
+    simp only [possibilities, List.mem_singleton] at hp
+    subst hp; exact ⟨rfl, rfl⟩
+  | regLoad k w =>
+    intro p hp
+    simp only [possibilities, List.mem_singleton] at hp
+    subst hp; exact ⟨rfl, rfl⟩
+  | memLoad k a w iha =>
+    intro p hp
+    simp only [possibilities, List.mem_map] at hp
+    obtain ⟨q, hq, rfl⟩ := hp
+    exact ⟨rfl, by simpa [Expr.noLess] using (iha q hq).2⟩
+  | binary op a b w iha ihb =>
+    intro p hp
+    simp only [possibilities, List.mem_flatMap, List.mem_map] at hp
+    obtain ⟨q, hq, r, hr, rfl⟩ := hp
+    exact ⟨rfl, by simp [Expr.noLess, (iha q hq).2, (ihb r hr).2]⟩
+  | less a b t f w _ _ iht ihf =>
+    intro p hp
+    simp only [possibilities, List.mem_append, List.mem_map] at hp
+    rcases hp with ⟨q, hq, rfl⟩ | ⟨q, hq, rfl⟩
+    · exact ⟨setWidth_width _ _, setWidth_noLess _ _ (iht q hq).2⟩
+    · exact ⟨setWidth_width _ _, setWidth_noLess _ _ (ihf q hq).2⟩
 
 end Mltwist.Lemmas.Transform
